@@ -1496,6 +1496,14 @@ def _b_minmax(kind):
             return a[best]
         if set(kw) - {"key", "default"}:
             raise Unsupported(f"{kind} with keyword arguments {sorted(kw)}")
+        if len(a) == 2 and any(is_z3(x) for x in a) and all(is_z3(x) or isinstance(x, int) for x in a):
+            # min / max of a size and a constant: decided from the current hypotheses when they determine it
+            ctx = cur()
+            lo, hi = (a[0], a[1])
+            if ctx.proves(zint(lo) <= zint(hi)):
+                return lo if kind == "min" else hi
+            if ctx.proves(zint(hi) <= zint(lo)):
+                return hi if kind == "min" else lo
         r = a[0]
         for x in a[1:]:
             r = scalar_binop(kind, r, x)
